@@ -23,7 +23,8 @@ REQUIRED_PROBES = ["coarsener_init", "greedy_prune"]
 REQUIRED_FEATURES = ["sched:sequential", "sched:pool", "sched:functor:reverse_eval_map", "sched:functor:eager_map",
                      "k>bins-of-every-chromosome", "chunksize:1", "algebra:chain", "algebra:merge-commute",
                      "mode:square", "mode:symm", "agg:max", "coarsen:spans>1", "family:variable", "family:trap",
-                     "family:coarse_trap", "via:cli-coarsen"]
+                     "family:coarse_trap", "via:cli-coarsen", "family:giant_variable",
+                     "family:fixed_exact:odd-width"]
 SHARD_TIMEOUT = {"quick": 1800, "thorough": 7200}
 
 
@@ -83,8 +84,17 @@ def one_base(ctx, shard, i, rng):
 
     fam = gen.BT_FAMILIES[(shard["sub"] + i) % len(gen.BT_FAMILIES)]
     bt = gen.gen_bt(rng, fam, max_chroms=4, max_bins=22, widths=(1, 2, 3, 5, 10, 1000))
+    # arbitrary (non-round) bin widths: the coarse width b*k then takes values such as 49, 98, 103, 161, 11000
+    if fam in ("fixed_exact", "fixed_short", "fixed_onebin", "mixed") and rng.random() < 0.6:
+        bw = int(rng.integers(2, 400)) if rng.random() < 0.7 else int(rng.integers(2, 60)) * 250
+        bt = gen.gen_bt(rng, fam, max_chroms=4, max_bins=22, widths=(bw,))
+        fam = fam + ":odd-width"
+    giant = (shard["sub"] + i) % 7 == 6
+    if giant:
+        bt = gen.gen_giant_bt(rng)
+        fam = "giant_variable"
     ktrap = None
-    if (shard["sub"] + i) % 5 == 4:
+    if (shard["sub"] + i) % 5 == 4 and not giant:
         ktrap = int(rng.integers(2, 4))
         bt = gen.gen_coarse_trap_bt(rng, ktrap)
         fam = "coarse_trap"
@@ -103,6 +113,8 @@ def one_base(ctx, shard, i, rng):
     rowlen = max([sum(1 for kk in P if kk[0] == r) for r in range(n)] or [1])
     ks = sorted({2, 3, int([4, 5, 7][int(rng.integers(3))]), minb + 1, maxb + 1})
     ks = [k for k in ks if k >= 2]
+    if ":odd-width" in fam:
+        ks = sorted(set(ks + [7, int(rng.integers(2, 12))]))[:6]
     if ktrap is not None:
         ks = sorted(set([ktrap] + ks[:2]))
     chunks = [1, 2, 3, max(rowlen, 1), max(len(P), 1), 10**7]
